@@ -2,7 +2,8 @@
 From Coq Require Import List Bool.
 Import ListNotations.
 From Mos Require Import Str Xml Outcome Seq Elements Classify Messages Merge Collection Proto.
-From Mos.proofs Require Import ClassifyFacts.
+From Mos Require Import Codec.
+From Mos.proofs Require Import ClassifyFacts CodecFacts.
 
 Theorem C07_rodelete_marks :
   forall (o : oracles) (ro d b : xml),
@@ -31,3 +32,11 @@ Theorem C07_never_spurious :
   ro_completed (fold_left (fun s km => r_st (add o s (fst km) (snd km))) h ro) = false.
 Proof. exact never_spurious. Qed.
 Print Assumptions C07_never_spurious.
+
+(* a (completed) running order written out and read back is the same document: still a
+   RunningOrder, still (not) completed *)
+Theorem C07_roundtrip :
+  forall ro : xml, wf_xml ro = true ->
+  exists ro', parse (ser ro) = Some ro' /\ classify ro' = classify ro /\ ro_completed ro' = ro_completed ro.
+Proof. intros ro H. exists ro. split; [now apply codec_roundtrip | now split]. Qed.
+Print Assumptions C07_roundtrip.
